@@ -80,6 +80,27 @@ class Monitor:
                                                  f'listener observed {old}->{new}, not an edge of the documented graph', wit,
                                                  observed=f'{old}->{new}', expected='an edge of the documented graph'))
 
+    def listeners(self, ctx, res, calls):
+        """every listener is told the same sequence of changes, each change continues the previous one"""
+        seqs = {}
+        for obs in res['per_event']:
+            for o in obs:
+                if o[0] == 'E':
+                    seqs.setdefault(o[5] if len(o) > 5 else 0, []).append((o[1], o[2]))
+        wit = dict(ctx, calls=[list(c) for c in calls])
+        for li, seq in sorted(seqs.items()):
+            for (_, new), (old, _) in zip(seq, seq[1:]):
+                if new != old:
+                    self.run.add_finding(Finding('listener-notifications-do-not-chain',
+                                                 f'listener {li} was told {seq}: a change does not start where the previous one ended', wit,
+                                                 observed=seq))
+        if res.get('done', False) and not res.get('enabled'):
+            full = seqs.get(0, [])
+            for li, seq in sorted(seqs.items()):
+                if seq != full:
+                    self.run.add_finding(Finding('listeners-told-different-changes', f'listener 0 was told {full}, listener {li} was told {seq}',
+                                                 wit, observed={str(k): v for k, v in seqs.items()}))
+
     def refusals(self, ctx, res, calls):
         for before, after, edges in res['refusals']:
             if before != after or edges:
@@ -231,9 +252,13 @@ def conc_case_text(state, direction, cfg, calls, events, res, flat=False):
     return ('flat' if flat else 'out', L.coq_transfer(state, direction, cfg), [L.coq_call(c) for c in calls], list(events), exp)
 
 
-def explore(tmp, state, direction, cfg, calls, mon: Monitor, run: Run, max_nodes=4000):
-    """all schedules of the given calls (captures in index order), pruned on identical harness states"""
+def explore(tmp, state, direction, cfg, calls, mon: Monitor, run: Run, max_nodes=4000, slow_listener=False):
+    """all schedules of the given calls (captures in index order), pruned on identical harness states.
+    slow_listener: three listeners, the first one suspends (completion = one more 'T' event); these runs are judged by
+    the monitors only (the model has no suspending listeners)"""
     ctx = {'state': state, 'direction': direction, 'cfg': cfg, 'level': 'state'}
+    if slow_listener:
+        ctx['slow_listener'] = True
     seen = set()
     stack = [[]]
     cases = []
@@ -241,8 +266,10 @@ def explore(tmp, state, direction, cfg, calls, mon: Monitor, run: Run, max_nodes
     while stack and nodes < max_nodes:
         ev = stack.pop()
         nodes += 1
-        res = L.run_schedule(tmp, state, direction, cfg, calls, ev)
+        res = L.run_schedule(tmp, state, direction, cfg, calls, ev, slow_listener=slow_listener)
         c2 = dict(ctx, schedule=[list(e) for e in ev])
+        if slow_listener:
+            mon.listeners(c2, res, calls)
         mon.edges(c2, res, calls, concurrent=True)
         mon.refusals(c2, res, calls)
         mon.lock(c2, res, calls)
@@ -252,9 +279,11 @@ def explore(tmp, state, direction, cfg, calls, mon: Monitor, run: Run, max_nodes
                           res['enabled'], [[list(map(str, o)) for o in p] for p in res['per_event'] if p]], default=str)
         en = res['enabled']
         if sig in seen or not en:
-            cases.append((conc_case_text(state, direction, cfg, calls, ev, res), c2))
-            run.case({'state': state, 'dir': direction, 'calls': [c[0] for c in calls], 'schedule': ''.join(e[0] for e in ev)},
-                     nontrivial=len(ev) >= 2 * len(calls), kind=f'schedule-{len(calls)}calls')
+            if not slow_listener:
+                cases.append((conc_case_text(state, direction, cfg, calls, ev, res), c2))
+            run.case({'state': state, 'dir': direction, 'calls': [c[0] for c in calls], 'schedule': ''.join(e[0] for e in ev),
+                      'slow': slow_listener},
+                     nontrivial=len(ev) >= 2 * len(calls), kind=f'schedule-{len(calls)}calls' + ('-slow-listener' if slow_listener else ''))
             continue
         seen.add(sig)
         for e in reversed(en):
@@ -352,8 +381,11 @@ def replay_witness(tmp, wit, mon: Monitor):
         natural(tmp, wit['state'], wit['direction'], cfg, calls, mon, manager=False)
     else:
         ev = [tuple(e) for e in wit['schedule']]
-        res = L.run_schedule(tmp, wit['state'], wit['direction'], cfg, calls, ev)
+        res = L.run_schedule(tmp, wit['state'], wit['direction'], cfg, calls, ev, slow_listener=bool(wit.get('slow_listener')))
         ctx = {'state': wit['state'], 'direction': wit['direction'], 'cfg': cfg, 'level': 'state', 'schedule': wit['schedule']}
+        if wit.get('slow_listener'):
+            ctx['slow_listener'] = True
+            mon.listeners(ctx, res, calls)
         mon.edges(ctx, res, calls, concurrent=True)
         mon.refusals(ctx, res, calls)
         mon.lock(ctx, res, calls)
@@ -428,6 +460,14 @@ def run(run: Run):
                             calls = [one_call(a), (b, 2, False) if b in ('fail', 'abort') else one_call(b)]
                             cases += explore(tmp, state, direction, cfg, calls, mon, run)
         _t = _mark(run, 'pairs', _t)
+        # (c') the same with a slow first listener and two more listeners (monitors only)
+        slow_cfgs = [CFGS[0]] if run.tier == 'quick' else [CFGS[0], RICH]
+        for state in L.STATES:
+            for direction in L.DIRS:
+                for cfg in slow_cfgs:
+                    for a in L.OPS:
+                        for b in L.OPS:
+                            explore(tmp, state, direction, cfg, [one_call(a), one_call(b)], mon, run, max_nodes=600, slow_listener=True)
         if run.tier == 'thorough':
             ops3 = ['abort', 'pause', 'queue']
             for state in L.STATES:
